@@ -303,6 +303,19 @@ Fixpoint fails_since_hs_acc (acc : nat) (l : list entry) : nat :=
   end.
 Definition fails_since_hs (l : list entry) : nat := fails_since_hs_acc 0 l.
 
+(* consecutive failed attempts as EdgeX can count them: failed attempts since it was last told Up
+   and since an attempt last ended normally (a handshake alone does not restart the count: a reader
+   whose every connection breaks is not reachable) *)
+Fixpoint fails_consec_acc (acc : nat) (l : list entry) : nat :=
+  match l with
+  | [] => acc
+  | LReport Up true :: l' => fails_consec_acc 0 l'
+  | LNormal :: l' => fails_consec_acc 0 l'
+  | LFail :: l' => fails_consec_acc (S acc) l'
+  | _ :: l' => fails_consec_acc acc l'
+  end.
+Definition fails_consec (l : list entry) : nat := fails_consec_acc 0 l.
+
 (* consecutive reports differ, starting from the initial state *)
 Fixpoint alternates (cur : opstate) (l : list opstate) : bool :=
   match l with
